@@ -241,8 +241,14 @@ def execute_random(case) -> Outcome:
     h = _HEAD[kind]
     total = h + d
     cuts = sorted({max(1, min(total - 1, int(f * total))) for f in case["cut_fracs"]} | {h + k for k in case["near_head"] if 0 < h + k < total})
-    world, res = run_handover(kind, d, cuts, case["script"], case["sync"], seg=case["seg"])
-    vio = judge(kind, d, cuts, case["script"], case["sync"], world, res, "random")
+    seg = case["seg"]
+    if seg and d / (sum(seg) / len(seg)) > 3000:
+        seg = None  # keep a single case cheap: tiny segments only with moderate amounts of data
+    script = case["script"]
+    if d > 20000:
+        script = [o if o[0] == "write" or o[1] >= 8 else ["read", o[1] * 512] for o in script]
+    world, res = run_handover(kind, d, cuts, script, case["sync"], seg=seg)
+    vio = judge(kind, d, cuts, script, case["sync"], world, res, "random")
     reads = [o[1] for o in case["script"] if o[0] == "read"]
     first_read_len = None
     for o in world.trace:
